@@ -1,2 +1,52 @@
-(* Properties_C17.v -- placeholder, theorems follow *)
-From TP Require Import Term.
+(* Properties_C17.v — C17: the plain text of a string is preserved from
+   construction to the wire. *)
+From TP Require Import Base Elem Term VT Markup Oracle P_Sync P_Step P_Bytes P_Run P_Props Tie_Output.
+Local Open Scope N_scope.
+
+Theorem C17_bytes_roundtrip : forall bs, to_string (of_bytes bs) = bs.
+Proof. exact to_string_of_bytes. Qed.
+Print Assumptions C17_bytes_roundtrip.
+
+Theorem C17_concat : forall a b, to_string (a ++ b) = to_string a ++ to_string b.
+Proof. exact to_string_app. Qed.
+Print Assumptions C17_concat.
+
+(* what goes on the wire for one glyph is its to_string, for every glyph of a
+   non-UTF-8 set and every well-formed UTF-8 glyph (U+0000 included) *)
+Theorem C17_glyph_wire :
+  forall g, cs_eqb (gcs g) CsUtf8 = false \/ wf_utf8 g = true -> wire g = glyph_text g.
+Proof. exact wire_text. Qed.
+Print Assumptions C17_glyph_wire.
+
+(* structure of what a write emits: controls, then the glyph's bytes *)
+Theorem C17_write_structure :
+  forall beh st e, exists ctl,
+    snd (write_element beh st e) = ctl ++ [Payload (wire (eg e))] /\
+    forallb ctl_ok ctl = true.
+Proof.
+  intros beh st e. unfold write_element. cbn [snd].
+  eexists. rewrite app_assoc. split; [reflexivity|].
+  rewrite forallb_app, ctl_change_charset, ctl_change_attribute. reflexivity.
+Qed.
+Print Assumptions C17_write_structure.
+
+(* the glyph bytes a terminal receives for a string, with all control
+   functions interpreted away, are to_string of the string - after any history *)
+Theorem C17_wire :
+  forall cfg beh, (b_unicode_all beh = true -> unicode_all cfg = true) ->
+  forall st v es, Sync beh st v -> forallb wf_elem es = true ->
+    let v' := vt_bytes cfg v (obytes beh st (WStr es)) in
+    exists tr, trace v' = rev tr ++ trace v /\
+               flat_map (fun pc => c_bytes (snd pc)) tr = to_string es.
+Proof.
+  intros cfg beh Huni st v es S Hes v'.
+  pose proof (sync_step cfg beh Huni st v (WStr es) S Hes) as H. cbv zeta in H.
+  destruct H as (_ & (tr & Hpl & Htr) & _).
+  exists tr. split; [exact Htr|]. exact (placed_text _ _ _ _ Hpl Hes).
+Qed.
+Print Assumptions C17_wire.
+
+Example C17_nonvacuous :
+  wire (mkGlyph CsUtf8 0 0 0) = [0] /\ glyph_text (mkGlyph CsUtf8 0 0 0) = [0] /\
+  wf_utf8 (mkGlyph CsUtf8 226 152 186) = true.
+Proof. repeat split. Qed.
